@@ -3,9 +3,11 @@
 set -u
 patch="$1"; shift
 git -C /repo apply "$patch" || { echo "patch does not apply"; exit 2; }
+export GSE_EVIDENCE_DIR=$(mktemp -d)
 for id in "$@"; do
   timeout 1500 /verif/check "$id" --tier quick 2>&1 | grep -v "^init" | grep "VIOLATION\|tier=\|INCONCLUSIVE\|ENGINE-ERROR\|VACUITY" | cut -c1-220
   echo "exit=$? ($id)"
 done
+rm -rf "$GSE_EVIDENCE_DIR"
 git -C /repo checkout -- .
 git -C /repo status --short
